@@ -66,7 +66,7 @@ fn run_case(case: &C05Case, force_single: bool, obs: &mut Obs) -> Vec<(Vec<Value
 	let rt = rt();
 	crate::panics::clear_local();
 	rt.block_on(async {
-		let mut mc = MockClient::new(ClientCfg { id_kind: case.id_kind, sub_buffer: cap, ..ClientCfg::default() });
+		let mut mc = MockClient::new(ClientCfg { id_kind: case.id_kind, sub_buffer: cap, mw_last: case.cap % 3 == 0, ..ClientCfg::default() });
 		let mut subs: Vec<MSub> = vec![];
 		let mut item_no = 0u64;
 		let mut pending_msgs: Vec<Value> = vec![];
@@ -474,7 +474,7 @@ pub struct DroppedWithFullQueue;
 /// returns (number of unsubscribe requests naming the id, table sizes after the unsubscribe was acknowledged)
 pub async fn full_queue_scenario(case: &FullQueueCase, fails: &mut Vec<(String, String)>) -> (usize, Option<[usize; 4]>, bool) {
 	use jsonrpsee_core::client::ClientT;
-	let mut mc = MockClient::new(ClientCfg { id_kind: case.id_kind, sub_buffer: case.cap.max(1) as usize, max_concurrent_requests: 1, ping: false });
+	let mut mc = MockClient::new(ClientCfg { id_kind: case.id_kind, sub_buffer: case.cap.max(1) as usize, max_concurrent_requests: 1, ping: false, mw_last: case.pushes_after % 2 == 0 });
 	let c = mc.client.clone();
 	let h = tokio::spawn(async move { c.subscribe::<Value, _>("sub", rpc_params![], "unsub").await });
 	settle().await;
